@@ -239,6 +239,18 @@ func runScript(drv *lean.Driver, sc Script) M {
 			conns = append(conns, cs)
 			loop.Connect(cs.c)
 			barrier()
+			// direct C18 check: a reconnect with the same id replaces the older connection (whatever the limit says:
+			// replacing does not add a connection) - an older open connection of that group and id is closed by this step
+			for k, old := range conns[:len(conns)-1] {
+				if old.group != st.Group || old.id != st.Id || old.closed || old.c.Buffered() != 0 || old.openAt != i-1 {
+					continue
+				}
+				if _, closed := old.c.DrainOne(); !closed {
+					return fail(i, "a reconnect with the same id did not replace the older connection", fmt.Sprintf("connection %d (%s/%s) is still open after connection %d with the same group and id connected (limit %d, registry size %d)", k, old.group, old.id, len(conns)-1, sc.Max, loop.Len()), true)
+				}
+				old.closed = true
+				counts["replaced"]++
+			}
 			if rep, off := call(M{"op": "poll_connect", "group": st.Group, "id": st.Id, "cap": st.Cap}); !off {
 				if h, _ := rep["handle"].(json.Number).Int64(); int(h) != len(conns)-1 {
 					return M{"harness": fmt.Sprintf("handle numbering: model %d harness %d", h, len(conns)-1)}
